@@ -4,6 +4,7 @@ import (
 	"fmt"
 	"strings"
 	"sync"
+	"time"
 
 	"github.com/mit-pdos/go-nfsd/fstxn"
 )
@@ -23,6 +24,7 @@ type tracer struct {
 	aborts int
 	limit  int
 	dirty  bool // some transaction since the last checkpoint committed buffers (or a shrinker ran)
+	yield  bool // pause before every lock acquisition: a waiting call gets in between two rounds of the background shrinker
 }
 
 var tracers sync.Map // *fstxn.FsState -> *tracer
@@ -36,6 +38,15 @@ func installHook() {
 			return
 		}
 		t := v.(*tracer)
+		if kind == 0 {
+			t.mu.Lock()
+			y := t.yield
+			t.mu.Unlock()
+			if y {
+				time.Sleep(300 * time.Microsecond)
+			}
+			return
+		}
 		t.mu.Lock()
 		id, ok := t.txns[op]
 		if !ok {
